@@ -67,6 +67,15 @@ C06 = {
 }
 
 
+# hand-made short replays (override the shortest generated one) and findings that only a crafted input shows
+OVERRIDE_REPLAY = {
+    ("C19", "all:c19:panic:layers/lldp.go:896"): "all dec linklayerdiscovery 0 02020401040205010602007810faf00100000000000000000000000000000000000000000000000000000000000000000000000000000000000000000000000000000000000000000000000000000000000000000000000000000000000000000000000000000000000000000000000000000000000000000000000000000000000000000000000000000000000000000000000000000000000000000000000000000000000000000000000000000000000000000000000000000000000000000000000000000000000000000000000000000000000000000000000000000000000000000000000000000000000000000000000000000000000000000000000000000000140000000000",
+}
+EXTRA = [
+    ("C02", "all:c02:reads-beyond-len:TLS", "all dec ipv4 8 450000fe7142400080064ee1c0a8dc01c0a8dc832f0e01bb256cbd3dcccee1f75018ffff7caf000016030100d1010000cd0301ffa288977c41a108342c98c27004a05d5f39efe070d512f13517b60dc4d3098500005ac014c00a0039003800880087c00fc00500350084c013c00900330032009a009900450044c00ec004002f00960041c011c007c00cc00200050004c012c00800160013c00dc003000a0015001200090014001100080006000300ff0201000060000b000403000102000a00340032000e000d0019000b000c00180009000a00160017000800060007001400150004000500120013000100020003000f0010001100230000000f000101", "crafted: the repo's TLS ClientHello fixture cut at its (too small) IP total length"),
+]
+
+
 def main():
     best, count = {}, collections.Counter()
     args = sys.argv[1:]
@@ -87,6 +96,11 @@ def main():
             c = cases[d["case"]][0] if cases[d["case"]] else ""
             if k not in best or len(c) < len(best[k][0]):
                 best[k] = (c, d["what"])
+    for (prop, sig, op, what) in EXTRA:
+        best.setdefault((prop, sig), (op, what))
+    for k, op in OVERRIDE_REPLAY.items():
+        if k in best:
+            best[k] = (op, best[k][1])
     out, perv, unclassified = [], collections.defaultdict(list), []
     for (prop, sig), (op, what) in sorted(best.items()):
         ent = None
